@@ -49,6 +49,29 @@ pub fn concat(ctx: &mut Ctx) {
     ctx.rule = "1-3 input archives from the five library writer kinds (random codec/cipher, 0-4 entries up to 900 bytes), each left whole or cut by `pna split --max-size M` (M from 60 to the archive length); \
                 `pna concat out.pna <first parts>`; variants: intact / last part missing / part 2 replaced by a copy of part 1 (wrong number) / last part truncated / a stale extra part file beyond the end; \
                 output file compared with the Lean model (length + CRC-32), strict reader, chunk sequence up to data cuts, library entries; non-trivial = at least one input was split in >= 2 parts and concat succeeded".into();
+    // deterministic witness of the known finding C14-later-part-as-archive: the LAST part of a part set given as if it were an
+    // archive of its own; its first item is the tail of an entry that began in the previous part
+    {
+        let sbx = Sbx::new("concat-w", 0);
+        std::fs::create_dir_all(sbx.path("t")).unwrap();
+        std::fs::write(sbx.path("t/big.txt"), "0123456789abcdef".repeat(260)).unwrap();
+        std::fs::write(sbx.path("t/s.txt"), b"small").unwrap();
+        let c = run_pna(&sbx, &sbx.root, &["--quiet", "create", "a.pna", "t/big.txt", "t/s.txt", "--store", "--split", "1500"], None, 60, &[]);
+        let mut last = 0;
+        for i in 1.. { if sbx.path(&format!("a.part{i}.pna")).exists() { last = i; } else { break; } }
+        if c.ok() && last >= 2 {
+            let lp = format!("a.part{last}.pna");
+            let r = run_pna(&sbx, &sbx.root, &["--quiet", "concat", "out.pna", &lp], None, 60, &[]);
+            ctx.oracle_eval();
+            if r.ok() {
+                let out = std::fs::read(sbx.path("out.pna")).unwrap_or_default();
+                let items_ok = refdec::chunks(&out).map(|(cs, _)| cs.get(1).map(|(t, _)| t == b"FHED" || t == b"SHED" || t == b"AEND").unwrap_or(false)).unwrap_or(false);
+                if !items_ok {
+                    ctx.violation("C14", "pna concat wrote an archive whose first entry has no header", json!({"witness":"later-part-as-archive","argv":["concat","out.pna",lp],"parts":last,"out_len":out.len()}));
+                }
+            }
+        }
+    }
     let n = if ctx.thorough { 150 } else { 30 };
     for case in 0..n {
         let sbx = Sbx::new("concat", case);
